@@ -988,6 +988,41 @@ def classify_filter(L, node):
     raise Unsupported("row filter %s is neither the copy-number nor the group-size idiom" % show(mask, 3))
 
 
+_SIZE_METHODS = ("nunique", "count", "size", "__len__")
+
+
+def _size_expr(t):
+    """Is `t` a number that depends on its operands only through their sizes (len / nunique / shape / constants)?"""
+    if t[0] == "const":
+        return isinstance(t[1], (int, float)) and not isinstance(t[1], bool)
+    if t[0] == "call" and t[1] == "len" and len(t[2]) == 1:
+        return True
+    if t[0] == "method" and t[2] in _SIZE_METHODS:
+        return True
+    if t[0] == "sub" and t[1][0] == "attr" and t[1][2] == "shape":
+        return True
+    if t[0] == "attr" and t[2] == "size":
+        return True
+    if t[0] == "op" and t[1] in ("Mult", "Add", "Sub", "FloorDiv", "Div"):
+        return all(_size_expr(x) for x in t[2])
+    return False
+
+
+def _size_only_test(test):
+    """A comparison between two size expressions that is not an emptiness test (x == 0 / len(x) < 1 ...)."""
+    if test[0] == "op" and test[1] == "Not" and len(test[2]) == 1:
+        return _size_only_test(test[2][0])
+    if test[0] != "cmp" or test[1] not in ("Eq", "NotEq", "Lt", "LtE", "Gt", "GtE"):
+        return False
+    a, b = test[2], test[3]
+    if not (_size_expr(a) and _size_expr(b)):
+        return False
+    for x in (a, b):
+        if x[0] == "const" and x[1] in (0, 1) and test[1] in ("Eq", "NotEq", "Lt", "LtE", "Gt", "GtE") and (x[1] == 0 or test[1] in ("Lt", "GtE")):
+            return False  # emptiness
+    return True
+
+
 def rule_L1(ctx, L):
     T = L.T
     fi = L.fi
@@ -997,6 +1032,19 @@ def rule_L1(ctx, L):
         if n[0] == "condnode":
             for arm in (n[2], n[3]):
                 for m in arm:
+                    if m[0] != "condnode" and T.kind(m)[0] == "rowfilter" and _size_only_test(n[1]):
+                        # a documented filter that runs only when some row / sample / mutation *count* has a certain
+                        # value: no count decides which rows the per-row / per-mutation criterion removes
+                        ctx.rule("L1", "rows kept iff major_cn > 0; mutation kept iff its row count over mutation_id == number of samples; samples computed after the copy-number filter and before the group filter", 4)
+                        ctx.fail("L1", "the documented row filters run on every load", _where(L, "load_pyclone_data"), "a row filter (%s) is applied only under the size test %s: a table for which the test decides otherwise is not filtered as documented (e.g. as many surplus rows as missing ones)" % (show(m, 2), show(n[1], 2)), construct="phyclone.data.pyclone:load path", stmt="filter under a size test")
+                        raise Unsupported("rows are filtered under a condition (%s)" % show(n[1], 2))
+                    if m[0] == "condnode" and _size_only_test(n[1]):
+                        inner = [x for arm2 in (m[2], m[3]) for x in arm2 if x[0] != "condnode"]
+                        cols = [sc[0] for sc in (_set_col(x) for x in inner) if sc and sc[0] in dict(DEFAULTS)]
+                        if cols:
+                            ctx.rule("L3", "error_rate <- 1e-3 and tumour_content <- 1.0 only when the column is absent, on the frame the records are read from", 3)
+                            ctx.fail("L3", "the documented defaults are assigned on every load", _where(L, "_process_required_cols_on_df"), "the default for %s is assigned only under the size test %s: loads for which the test decides otherwise get no default (KeyError on an absent column)" % (", ".join(sorted(set(cols))), show(n[1], 2)), construct="phyclone.data.pyclone:_process_required_cols_on_df", stmt="default under a size test")
+                            raise Unsupported("defaults are assigned under a condition (%s)" % show(n[1], 2))
                     if m[0] == "condnode" or T.kind(m)[0] in ("rowfilter", "merge", "group"):
                         raise Unsupported("rows are filtered under a condition (%s): not an idiom of the load path" % show(n[1], 2))
             continue
